@@ -487,7 +487,10 @@ static void parked_closure(const State& s0, int n, uint32_t idx0) {
         if (all_idle) {
             // all readers are drained and hold nothing; one more round of maps must not be needed
             State t = s; bool changed = false;
-            for (int r = 0; r < NR; ++r) if (s.joined[r]) { State u = t; apply(u, { OP_RMAP, (uint8_t)r, 0 }); if (memcmp(&u, &t, sizeof u)) changed = true; }
+            // "changes nothing" is judged on the canonical form: fields of an unmapped reader that the next map overwrites do not count
+            uint8_t k0[512], k1[512];
+            { State c = t; canon(c); encode(c, k0); }
+            for (int r = 0; r < NR; ++r) if (s.joined[r]) { State u = t; apply(u, { OP_RMAP, (uint8_t)r, 0 }); State c = u; canon(c); encode(c, k1); if (memcmp(k0, k1, KEYLEN)) changed = true; }
             if (!changed) {
                 bool blk = would_block(s, n);
                 std::string w = path_str(path_to(idx0)) + ",[writer sleeps in wmap(" + std::to_string(n) + ")]," + path_str(paths[qi]);
